@@ -2,12 +2,13 @@
 
 (a) Map level (internal seam Bath.north_degeneracy_map / west_degeneracy_map, dimension 2..5): for EVERY eigenvalue
     multiset of size 2..5 over the alphabet {-2, 0, 1, 3} (121 multisets; they realise every coincidence pattern of
-    o_i - o_j and o_i + o_j reachable with four values, including none and total degeneracy) x scale {1, 0.37}
+    o_i - o_j and o_i + o_j reachable with four values, including none and total degeneracy) plus 6 symmetric
+    spectra x scale {1, 0.37}
     (0.37 makes sums that coincide mathematically differ in the last bit) x basis {diagonal sorted, diagonal permuted,
     conjugated by a generic unitary}: the maps must be exactly the brute-force partition of the index pairs (i, j) by
     the exact integer values (o_i - o_j, o_i + o_j) [north] and (o_i - o_j) [west], with contiguous labels 0..n-1.
 
-(b) Dynamics (differential): all 65 multisets of size 2..4 x basis {diagonal, conjugated by a generic unitary} x
+(b) Dynamics (differential): all 65 multisets of size 2..4 (plus 4 symmetric spectra) x basis {diagonal, conjugated by a generic unitary} x
     memory {full, dkmax 2 < N, dkmax 2 + add_correlation_time} x method {TEMPO, PT-TEMPO + compute_dynamics,
     MeanFieldTempo} (x systems x states): states (and field) with unique=True equal those with unique=False at EVERY
     step to C * epsrel * N.  Cases are keyed by their (north map, west map) pattern.
@@ -25,6 +26,10 @@ LEVEL = "exploration"
 EPS = 1e-8
 C_TOL = 40.0
 ALPHABET = (-2, 0, 1, 3)
+# symmetric spectra (o_i + o_j = 0 = 2 o_k coincidences, the only kind the repository's tests use) are not reachable
+# with the alphabet above and are added explicitly
+SYMMETRIC = [(-1, 1), (-1, 0, 1), (-1, 0, 0, 1), (-1, -1, 1, 1)]
+SYMMETRIC_MAPS = SYMMETRIC + [(-2, -1, 0, 1, 2), (-1, -1, 0, 1, 1)]
 OP_SCALE = 0.5                     # coupling operator = 0.5 * diag(ev) (keeps the decoherence moderate)
 MAP_SCALES = (1.0, 0.37)
 MIN_INFLUENCE = 0.05
@@ -101,7 +106,7 @@ def map_case(args):
 
 
 def map_cases():
-    evs = K.multisets(ALPHABET, (2, 3, 4, 5))
+    evs = K.multisets(ALPHABET, (2, 3, 4, 5)) + SYMMETRIC_MAPS
     return [(ev, s, b) for ev in evs for s in MAP_SCALES for b in ("diag", "perm", "nondiag")]
 
 
@@ -187,7 +192,7 @@ def dyn_item(item):
 
 
 def dyn_items(tier):
-    evs = K.multisets(ALPHABET, (2, 3, 4))
+    evs = K.multisets(ALPHABET, (2, 3, 4)) + SYMMETRIC
     items = []
     eps_list = [EPS] if tier == "quick" else [EPS, 1e-5]
     for ev, basis, eps in itertools.product(evs, ("diag", "nondiag"), eps_list):
@@ -273,9 +278,9 @@ def run(tier, seed):
                      "distinct_keys(method,basis,memory,north map,west map)": len(keys),
                      "distinct_map_patterns": len(patterns), "pairs_with_north_reduction": north_reduced,
                      "worker_items": len(items), "steps_compared_per_pair": K.N + 1,
-                     "multisets": len(K.multisets(ALPHABET, (2, 3, 4)))},
-        "rule": "map level: all multisets of size 2..5 over {-2,0,1,3} x scale {1,0.37} x {diagonal, permuted diagonal, "
-                "generic non-diagonal}; dynamics: all multisets of size 2..4 x {diagonal, non-diagonal} x memory x method "
+                     "multisets": len(K.multisets(ALPHABET, (2, 3, 4))) + len(SYMMETRIC)},
+        "rule": "map level: all multisets of size 2..5 over {-2,0,1,3} (+6 symmetric spectra) x scale {1,0.37} x {diagonal, permuted diagonal, "
+                "generic non-diagonal}; dynamics: all multisets of size 2..4 (+4 symmetric spectra) x {diagonal, non-diagonal} x memory x method "
                 "(x systems x states), unique=True vs unique=False at every step.  A pair is non-trivial iff a map really "
                 "reduces a dimension, the bath moves the state by > 0.05 w.r.t. the bath-free evolution and the state "
                 "moves by > 0.01 from the initial state; distinct cases are keyed by (method, basis, memory, north map, "
